@@ -26,7 +26,7 @@ LEVEL_TEXT = ('Proved in Lean for lists of any length mixing local and imported 
               'module (sorted order) importing it; OBJECTS/NOTIFICATIONS/VARIABLES lists keep every object in order with that attribution; '
               'INDEX lists keep order, IMPLIED flags and attribution; compliance groups per MODULE clause in order; table/row/column/scalar '
               'classification is a function of the whole module\'s SEQUENCE OF / SEQUENCE declarations only (independent of declaration '
-              'order). The parser\'s list construction (C02) and the pysnmp template are not modelled here; the template is checked through '
+              'order). The parser\'s list construction (C02) is not modelled here; of the pysnmp template it is decided, on a table of its loops regenerated on every run, that no loop over one of these lists applies any filter (C06_template_lists_unfiltered, _present, _filters_known); what the rendered statements do is checked through '
               'the calls recorded when the generated module is executed (setIndexNames, registerAugmentions, setObjects).')
 LEVEL_NOTE = c01.LEVEL_NOTE
 ASSUMPTIONS = ['OBJECT refinements of compliance statements carry no reference the property speaks about and are not generated']
